@@ -29,6 +29,8 @@ import (
 type Script struct {
 	Quick   []int  `json:"quick"`              // run times (ms) of quick foreground commands before the main one
 	Bg      bool   `json:"bg,omitempty"`       // a well-behaved background process (exits 10ms after an interrupt) is running meanwhile
+	BgInt   string `json:"bg_int,omitempty"`   // the background process's reaction to SIGINT (what the end-of-script clean-up sends): "" = exits after 10ms | ignore | a delay; it always exits 10ms after a SIGQUIT
+	BgSlow  bool   `json:"bg_slow,omitempty"`  // the background process takes one and a half grace periods (as aimed) to exit after the SIGQUIT - still before the deadline
 	Mode    string `json:"mode"`               // main command: early | around | forever
 	RelNs   int64  `json:"rel_ns,omitempty"`   // around: natural exit instant relative to the interrupt instant (may be negative)
 	EarlyMs int    `json:"early_ms,omitempty"` // early: run time
@@ -45,6 +47,7 @@ type Plan struct {
 	Verbose    bool        `json:"verbose,omitempty"`
 	Twin       bool        `json:"twin,omitempty"`     // also run the unaffected scripts without a deadline and compare
 	Parallel   int         `json:"parallel,omitempty"` // how many subtests the T lets run at once (go test -parallel); 0 = all
+	PriorMs    int64       `json:"prior_ms,omitempty"` // an earlier RunT call in the same process (one short script) with this deadline distance; -1: without deadline; 0: none
 	Sched      simrt.Sched `json:"sched"`
 }
 
@@ -69,6 +72,12 @@ func genPlan(t *rapid.T, tier string) any {
 		} else {
 			s.Mode = rapid.SampledFrom([]string{"early", "around", "around", "forever", "forever"}).Draw(t, "mode")
 		}
+		if s.Bg && s.Mode == "forever" {
+			// only where the script is certainly still blocked when the deadline machinery fires: a script that
+			// ends by itself would legitimately wait for such a process without limit
+			s.BgInt = rapid.SampledFrom([]string{"", "", "ignore", "40s", "3s"}).Draw(t, "bgint")
+			s.BgSlow = s.BgInt != "" && rapid.Bool().Draw(t, "bgslow")
+		}
 		s.EarlyMs = rapid.IntRange(1, 60).Draw(t, "early")
 		s.RelNs = rapid.SampledFrom(relChoices).Draw(t, "rel")
 		s.Quit = rapid.SampledFrom([]string{"default", "ignore", "delay", "delay"}).Draw(t, "quit")
@@ -85,6 +94,9 @@ func genPlan(t *rapid.T, tier string) any {
 	if rapid.IntRange(0, 2).Draw(t, "limited") == 0 {
 		p.Parallel = rapid.SampledFrom([]int{1, 2, -1}).Draw(t, "parallel") // -1: a T whose Run is synchronous and Parallel a no-op
 	}
+	if rapid.IntRange(0, 2).Draw(t, "prior") == 0 {
+		p.PriorMs = rapid.SampledFrom([]int64{-1, 300, 2000, 40000, 600000}).Draw(t, "priordeadline")
+	}
 	p.Sched = gen.Sched(t, 300)
 	return p
 }
@@ -100,7 +112,7 @@ var timing = regexp.MustCompile(`\(\d+\.\d+s\)`)
 // scriptText renders script i. interruptAt is the fake instant (since the run's
 // epoch) at which the harness expects the interrupt; it is used only to place
 // exit instants, never by the oracle.
-func scriptText(i int, s Script, interruptAt time.Duration) string {
+func scriptText(i int, s Script, interruptAt, grace time.Duration) string {
 	var b strings.Builder
 	fmt.Fprintf(&b, "# script %d\nprobe start\n", i)
 	var elapsed time.Duration
@@ -113,7 +125,15 @@ func scriptText(i int, s Script, interruptAt time.Duration) string {
 		elapsed += d
 	}
 	if s.Bg {
-		b.WriteString("exec stub bg=true run=forever quit=10ms int=10ms &\n")
+		bgInt := "10ms"
+		if s.BgInt != "" {
+			bgInt = s.BgInt
+		}
+		bgQuit := 10 * time.Millisecond
+		if s.BgSlow {
+			bgQuit = grace*3/2 + time.Duration(7+i)*time.Nanosecond
+		}
+		fmt.Fprintf(&b, "exec stub bg=true run=forever quit=%dns int=%s &\n", int64(bgQuit), bgInt)
 	}
 	main := "exec stub fg=true"
 	if s.Neg {
@@ -223,18 +243,35 @@ func run(t *testing.T, plan any, keep bool) *simcheck.Outcome {
 	D := time.Duration(p.DeadlineMs) * time.Millisecond
 	// where the harness expects the interrupt (used only to aim exit instants)
 	aim := D
+	var aimGrace time.Duration
 	if D > 0 {
 		g := D / 20
 		if g < 100*time.Millisecond {
 			g = 100 * time.Millisecond
 		}
 		aim = D - 2*g
+		aimGrace = g
 	}
 	var files []string
 	for i, s := range p.Scripts {
 		f := filepath.Join(dir, "scripts", fmt.Sprintf("s%d.txt", i))
-		os.WriteFile(f, []byte(scriptText(i, s, aim)), 0o666)
+		os.WriteFile(f, []byte(scriptText(i, s, aim, aimGrace)), 0o666)
 		files = append(files, f)
+	}
+	if p.PriorMs != 0 {
+		// RunT calls of one process are independent: whatever an earlier call computed must not leak into this one
+		prior := filepath.Join(dir, "scripts", "prior.txt")
+		os.WriteFile(prior, []byte("exec stub run=1000003ns out=prior\n"), 0o666)
+		pd := time.Duration(0)
+		if p.PriorMs > 0 {
+			pd = time.Duration(p.PriorMs) * time.Millisecond
+		}
+		pr := execute(t, p, []string{prior}, pd, false, filepath.Join(dir, "tmp0"))
+		if pr.rep.Deadlock || pr.rep.StepCap || len(pr.subs) != 1 || !pr.subs[0].Finished || pr.subs[0].Failed {
+			out.Violate("prior-run", "the earlier RunT call (one 1ms script, deadline distance %dms) did not simply pass: %s", p.PriorMs, pr.rep.DescribeBlocked())
+			return out
+		}
+		out.Count("prior_runt_calls", 1)
 	}
 	res := execute(t, p, files, D, keep, filepath.Join(dir, "tmp"))
 	rep := res.rep
@@ -306,8 +343,8 @@ func run(t *testing.T, plan any, keep bool) *simcheck.Outcome {
 	for _, pr := range res.procs {
 		name := scriptOf(pr)
 		what := fmt.Sprintf("script %s: process %v (started at %v)", name, pr.Args[1:], pr.Started)
-		if !pr.Exited {
-			out.Violate("child-left-behind", "%s is still alive after RunT and all subtests ended", what)
+		if !pr.Exited || pr.ExitAt > res.end {
+			out.Violate("child-left-behind", "%s is still alive after RunT and all subtests ended (at %v)", what, res.end)
 			continue
 		}
 		if !pr.Reaped {
@@ -472,9 +509,9 @@ func run(t *testing.T, plan any, keep bool) *simcheck.Outcome {
 var harness = &simcheck.Harness{
 	Property: "C17",
 	Level:    "exploration",
-	Rule: "rapid draws a deadline distance (300 ms ... 10 min, or none), 1-3 scripts (quick commands, optional interruptible background process, one main foreground command that exits early, " +
+	Rule: "rapid draws a deadline distance (300 ms ... 10 min, or none), 1-3 scripts (quick commands, optional background process (exits on the deadline's interrupt; reacts to the clean-up's SIGINT promptly, after 3s / 40s, or never), one main foreground command that exits early, " +
 		"exits at the interrupt instant +-{1ns,1us,1ms,30ms}, or never; reaction to SIGQUIT: default, ignore, exit after a delay below / around / above the grace period; optional '!' prefix; lines after it), " +
-		"verbosity, the number of subtests the T lets run at once (all, 1 or 2), whether a no-deadline twin run is compared, and a schedule; non-trivial = a foreground command was interrupted or several scripts ran; distinct by decision-trace hash",
+		"verbosity, the number of subtests the T lets run at once (all, 1 or 2), whether a no-deadline twin run is compared, optionally an earlier RunT call in the same process with another deadline distance, and a schedule; non-trivial = a foreground command was interrupted or several scripts ran; distinct by decision-trace hash",
 	Gen:     genPlan,
 	NewPlan: func() any { return &Plan{} },
 	Run:     run,
@@ -488,7 +525,7 @@ var harness = &simcheck.Harness{
 	Assumptions: []string{
 		"the grace period is not hard-coded in the oracle: only 'interrupt->kill equals kill->deadline, both positive' and 'everything ends by the deadline' are required",
 		"exact ties between a process exit and the interrupt/kill instant are not generated (all instants differ by at least 1 ns)",
-		"background processes that ignore interrupts are outside the statement's quantifier and not generated",
+		"background processes always exit promptly on the deadline's interrupt signal (SIGQUIT); ones that ignore or are slow to act on the clean-up's SIGINT are generated only next to a foreground command that blocks forever (elsewhere the script would legitimately wait for them without limit)",
 	},
 	RequiredCounters: []string{"proc_starts", "probe_foreground_interrupted", "probe_foreground_force_killed"},
 }
